@@ -43,6 +43,11 @@ pub struct MuxCase {
     pub timescale: u32,
     pub tracks: Vec<MTrack>,
     pub ops: Vec<MOp>,
+    /// sink the history is muxed into by `run_mux_vec`: 0 = an in-memory cursor that takes every
+    /// write whole; otherwise a legal sink that accepts at most `sink & 0xff` bytes per write call
+    /// (a varying amount up to that when `sink >> 8` is non-zero)
+    #[serde(default)]
+    pub sink: u16,
 }
 
 #[derive(Clone, Debug, PartialEq, Eq)]
@@ -210,6 +215,13 @@ pub fn run_mux<W: Write + Seek>(case: &MuxCase, w: W) -> MuxRun<W> {
 }
 
 pub fn run_mux_vec(case: &MuxCase) -> (MuxRun<Cursor<Vec<u8>>>, Vec<u8>) {
+    if case.sink != 0 {
+        let max = (case.sink & 0xff).max(1) as usize;
+        let vary = (case.sink >> 8) as u64;
+        let mut r = run_mux(case, crate::io::ShortStream::new(Cursor::new(Vec::new()), max, vary, 0));
+        let bytes = r.writer.take().map(|s| s.inner.into_inner()).unwrap_or_default();
+        return (MuxRun { writer: None, calls: r.calls, model: r.model, all_ok: r.all_ok, panicked: r.panicked, tracks_added: r.tracks_added }, bytes);
+    }
     let mut r = run_mux(case, Cursor::new(Vec::new()));
     let bytes = r.writer.take().map(|c| c.into_inner()).unwrap_or_default();
     (r, bytes)
@@ -415,7 +427,7 @@ pub fn assemble_history(major: [u8; 4], minor: u32, compat: Vec<[u8; 4]>, movie_
         };
         ops.push(MOp { track: ti as u32 + 1, size, dur, cts, sync });
     }
-    MuxCase { major, minor, compat, timescale: movie_ts, tracks: all_tracks, ops }
+    MuxCase { major, minor, compat, timescale: movie_ts, tracks: all_tracks, ops, sink: 0 }
 }
 
 /// a configuration add_track must reject
@@ -442,6 +454,11 @@ pub fn mux_history_bits(max_tracks: usize, max_ops: usize, bad_weight: f64, tick
         prop::collection::vec(if bad_weight > 0.0 { prop_oneof![9 => valid_track(), 1 => invalid_track()].boxed() } else { valid_track().boxed() }, 1..=max_tracks),
         prop::collection::vec(raw_op(bad_weight), 0..=max_ops),
         (prop_oneof![Just(0u16), any::<u16>(), Just(u16::MAX)], 0u8..5, prop_oneof![4 => Just(0u8), 1 => Just(1u8), 1 => Just(2u8)]),
+        prop_oneof![14 => Just(0u16), 1 => (1u16..=40, 0u16..3).prop_map(|(m, v)| m | (v << 8))],
     )
-        .prop_map(move |((major, minor, compat, ts), tracks, raw, (cts_from, sync_mode, size_mode))| assemble_history(major, minor, compat, ts, tracks, raw, &HistOpts { cts_from, sync_mode, size_mode, tick_bits }))
+        .prop_map(move |((major, minor, compat, ts), tracks, raw, (cts_from, sync_mode, size_mode), sink)| {
+            let mut c = assemble_history(major, minor, compat, ts, tracks, raw, &HistOpts { cts_from, sync_mode, size_mode, tick_bits });
+            c.sink = sink;
+            c
+        })
 }
